@@ -518,7 +518,7 @@ theorem value_within_limit_accepted (v : Str) (h : v.length ≤ 640) :
   have : ¬ v.length > 640 := by omega
   simp [checkFieldValue, checkRunResult, maxFieldValueLen, maxRunResultLen, this]
 
-example : (List.replicate 641 'x').length > 640 := by decide
+example : (List.replicate 641 'x').length > 640 := by rw [List.length_replicate]; decide
 
 /-- a category name longer than 115 characters is rejected -/
 theorem overlong_category_detected (n : Str) (h : n.length > 115) :
@@ -590,9 +590,16 @@ theorem for_without_variable_detected (v : List Str) (h : v.head? = none ∨ v.h
 theorem edge_from_unknown_row_detected (known : List Str) (src : Str)
     (h1 : src ≠ []) (h2 : src ≠ "start".toList) (h3 : src ∉ known) :
     checkEdgeFrom known src = .error (.edgeFromUnknownRow src) := by
-  simp [checkEdgeFrom, h1, h2, h3]
+  unfold checkEdgeFrom
+  rw [if_neg (by rintro (h | h); exact h1 h; exact h2 h), if_neg h3]
 
 /-! ### template arguments -/
+
+theorem bindArgs_cons (d : ArgDef) (ds : List ArgDef) (args ctx : List Str) :
+    bindArgs (d :: ds) args ctx =
+      if d.name ∈ ctx then .error (.argDoublyDefined d.name)
+      else if argValue (args.headD []) d.default = [] then .error (.argMissing d.name)
+      else bindArgs ds args.tail (d.name :: ctx) := rfl
 
 theorem bindArgs_append : ∀ (pre rest : List ArgDef) (args ctx : List Str),
     bindArgs (pre ++ rest) args ctx =
@@ -604,15 +611,14 @@ theorem bindArgs_append : ∀ (pre rest : List ArgDef) (args ctx : List Str),
   | nil => intro rest args ctx; simp [bindArgs]
   | cons d pre ih =>
     intro rest args ctx
-    simp only [List.cons_append, bindArgs]
-    by_cases h1 : d.name ∈ ctx
-    · simp [h1]
-    · simp only [h1, if_false]
-      split
+    have hdrop : args.tail.drop pre.length = args.drop (d :: pre).length := by
+      cases args <;> simp
+    rw [List.cons_append, bindArgs_cons, bindArgs_cons]
+    split
+    · rfl
+    · split
       · rfl
-      · rw [ih]
-        simp [List.drop_succ_cons, List.length_cons]
-        cases args <;> simp
+      · rw [ih, hdrop]
 
 /-- **Missing template argument**: after any prefix of definitions that binds, a definition
 whose name is still free, with no default, and no (non-blank) argument at its position is
@@ -622,7 +628,8 @@ theorem arg_missing_detected (pre post : List ArgDef) (d : ArgDef) (args ctx ctx
     (hdef : d.default = []) (harg : (args.drop pre.length).headD [] = []) :
     bindArgs (pre ++ d :: post) args ctx = .error (.argMissing d.name) := by
   rw [bindArgs_append, hpre]
-  simp [bindArgs, hfree, hdef, harg]
+  show bindArgs (d :: post) _ _ = _
+  rw [bindArgs_cons, if_neg hfree, harg, hdef, if_pos (by rfl)]
 
 example : bindArgs ([⟨"a".toList, [], []⟩] ++ ⟨"b".toList, [], []⟩ :: []) ["x".toList] ["w".toList] =
     .error (.argMissing "b".toList) := by decide
@@ -633,10 +640,25 @@ theorem arg_doubly_defined_detected (pre post : List ArgDef) (d : ArgDef)
     (args ctx ctx' : List Str) (hpre : bindArgs pre args ctx = .ok ctx') (hdup : d.name ∈ ctx') :
     bindArgs (pre ++ d :: post) args ctx = .error (.argDoublyDefined d.name) := by
   rw [bindArgs_append, hpre]
-  simp [bindArgs, hdup]
+  show bindArgs (d :: post) _ _ = _
+  rw [bindArgs_cons, if_pos hdup]
 
 example : bindArgs ([⟨"a".toList, [], []⟩] ++ ⟨"word".toList, [], "d".toList⟩ :: [])
     ["x".toList, "y".toList] ["word".toList] = .error (.argDoublyDefined "word".toList) := by decide
+
+theorem bindArgs_ok_mono : ∀ (ds : List ArgDef) (args ctx ctx' : List Str),
+    bindArgs ds args ctx = .ok ctx' → ∀ x ∈ ctx, x ∈ ctx' := by
+  intro ds
+  induction ds with
+  | nil => intro _ _ _ h x hx; simp [bindArgs] at h; subst h; exact hx
+  | cons e es ihe =>
+    intro args ctx ctx' h x hx
+    rw [bindArgs_cons] at h
+    split at h
+    · cases h
+    · split at h
+      · cases h
+      · exact ihe _ _ _ h x (by simp [hx])
 
 /-- the bound names are added to the context, so a name defined twice in the definition
 list itself is caught too -/
@@ -647,30 +669,13 @@ theorem bindArgs_ok_mem : ∀ (ds : List ArgDef) (args ctx ctx' : List Str),
   | nil => intro _ _ _ _ d hd; cases hd
   | cons d0 ds ih =>
     intro args ctx ctx' h d hd
-    simp only [bindArgs] at h
-    by_cases h1 : d0.name ∈ ctx
-    · simp [h1] at h
-    · simp only [h1, if_false] at h
-      split at h
+    rw [bindArgs_cons] at h
+    split at h
+    · cases h
+    · split at h
       · cases h
-      · have hsub : ∀ x ∈ d0.name :: ctx, x ∈ ctx' := by
-          have key : ∀ (ds : List ArgDef) (args ctx ctx' : List Str),
-              bindArgs ds args ctx = .ok ctx' → ∀ x ∈ ctx, x ∈ ctx' := by
-            intro ds
-            induction ds with
-            | nil => intro _ _ _ h x hx; simp [bindArgs] at h; subst h; exact hx
-            | cons e es ihe =>
-              intro args ctx ctx' h x hx
-              simp only [bindArgs] at h
-              by_cases h2 : e.name ∈ ctx
-              · simp [h2] at h
-              · simp only [h2, if_false] at h
-                split at h
-                · cases h
-                · exact ihe _ _ _ h x (by simp [hx])
-          exact key ds _ _ _ h
-        rcases List.mem_cons.1 hd with rfl | hd
-        · exact hsub _ (by simp)
+      · rcases List.mem_cons.1 hd with rfl | hd
+        · exact bindArgs_ok_mono ds _ _ _ h _ (by simp)
         · exact ih _ _ _ h d hd
 
 theorem arg_defined_twice_detected (pre post : List ArgDef) (d d' : ArgDef)
@@ -726,7 +731,8 @@ theorem unknown_operation_detected (sheets models : List Str) (m : Bool) (op new
     (IndexRow.dataSheet op newName srcs).check sheets m models = .error .unknownOperation := by
   have h4 : op ≠ "concat".toList := by
     intro h; apply h3; rw [h]; decide
-  simp [IndexRow.check, h1, h2, h3, h4]
+  show (if op = [] then _ else _) = _
+  rw [if_neg h1, if_neg h2, if_neg h4, if_neg h3]
 
 theorem operation_without_new_name_detected (sheets models : List Str) (m : Bool) (op : Str)
     (srcs : List DataSource) (h1 : op ≠ []) :
@@ -771,7 +777,7 @@ theorem C15_partial {D : Type} (doc : Workbook → D) (encode : D → Str)
     (∀ d, createFlows doc w = .ok d → real w pre = ⟨0, some (encode d)⟩) := by
   rw [hfull w pre]
   constructor
-  · intro e h; rw [cli_error_keeps_file _ _ _ _ e h]; exact ⟨by decide, rfl⟩
+  · intro e h; rw [cli_error_keeps_file _ _ _ _ e h]; exact ⟨by simp, rfl⟩
   · intro d h; exact cli_ok_writes_document _ _ _ _ d h
 
 end Rpft.Props.C15
